@@ -24,10 +24,12 @@
     getglobal|setglobal cur lbase a name    - <open>
     snap kind top frames open closed        —   (monitor; kind ∈ probe susp final dead)
     golden <expected outcome>               <outcome>   (hand-checked corpus programs outside Spec/Sem's fragment)
+    cc nparams program                      <skeleton of the real prototype>   (compile side: Engines/CloseEng.lean)
   <open> = the chain as `h:index,h:index,…` or `-`; a Go panic is the reply `panic`.
 -/
 import GLua.Engines.Common
 import GLua.Model.UpvalueOps
+import GLua.Engines.CloseEng
 
 namespace GLua.Eng.UpvalEng
 open GLua GLua.Eng GLua.Upvalue GLua.Cells
@@ -185,6 +187,7 @@ def handle (st : St) (ws : List String) : St × Verdict :=
                     spec := some CSt.init }, ok)
     | none => bad st
   | ["src", _] => (st, ok)
+  | ["cc", np, prog] => (st, CloseEng.handleCC np prog impl)
   | ["golden", exp] =>
     (st, { spec := if impl = [exp] then none else some ("golden-outcome-differs expected=" ++ exp) })
   | ["snap", kind, top, frames, openS, closedS] =>
